@@ -47,6 +47,7 @@ def run(ctx: Ctx) -> None:
     seq_pairs(ctx, rs)
     monotone(ctx, rs)
     cpu_task(ctx, rs)
+    runner_and_sleep(ctx, rs)
 
 
 def _non_test_items(items: list, out: list) -> None:
@@ -279,6 +280,36 @@ def monotone(ctx: Ctx, rs: RustProgram) -> None:
         if not budget_ok:
             ctx.violation("C18.3/budget", key_of(rel, rf.qual, "self.clock = next_cycle:budget"), "the clock can be advanced to a wake cycle at or beyond the budget target", f"{rel}:{a['ln']}", guards=gs)
     ctx.instance("C18.3/monotone", "wake-cycle values, clock assignments, queue keys are forward-only; clock stays inside the budget", n, 5)
+
+
+def runner_and_sleep(ctx: Ctx, rs: RustProgram) -> None:
+    """(a) The runner keeps slicing until the CPU task reports completion: the only way out of its loop is the arm of the completion
+    event - a slice budget makes the result depend on the slice size.  (b) Every sleep goes through the scheduler once, including a
+    zero-cycle one: the future is created un-initialised, so its first poll registers a wake cycle and returns Pending."""
+    n = 0
+    fn = rs.fn("core/src/async_runtime.rs", "AsyncRuntimeRunner::run_instructions")
+    loops = [l for l in walk(fn.body) if l.get("k") in ("loop", "while", "for") and any(rs_is_mcall(c, "run_for") for c in walk(l))]
+    ctx.need(len(loops) == 1, "AsyncRuntimeRunner::run_instructions: slicing loop not found")
+    lp = loops[0]
+    if lp["k"] != "loop":
+        ctx.violation("C18.4/runner-until-done", key_of(fn.file, fn.qual, "bounded slicing loop"), f"the slicing loop is a `{lp['k']}` with its own bound, not `loop` until the completion event", fn.where)
+    arms_done = [a for m_ in walk(lp["body"]) if m_.get("k") == "match" for a in m_["arms"] if "DONE" in pat_text(a["pat"]).upper()]
+    done_nodes = {id(x) for a in arms_done for x in walk(a["body"])}
+    for b in walk(lp["body"]):
+        if b.get("k") in ("break", "return"):
+            n += 1
+            if id(b) not in done_nodes:
+                ctx.violation("C18.4/runner-until-done", key_of(fn.file, fn.qual, "loop exit that is not the completion event"),
+                              f"the slicing loop can be left at line {b.get('ln')} without the CPU task having reported completion: the run then retires fewer instructions than step(n), depending on the slice size", f"{fn.file}:{b.get('ln')}")
+    ctx.need(n >= 1, "run_instructions: no loop exit found")
+    sc = rs.fn(DRV, "sleep_cycles")
+    lits = [x for x in walk(sc.body) if x.get("k") == "struct_lit" and x["p"].split("::")[-1] == "CycleSleep"]
+    ctx.need(len(lits) == 1, "sleep_cycles: CycleSleep literal not found")
+    init = [f for f in lits[0]["fields"] if f["name"] == "initialized"]
+    n += 1
+    if not (len(init) == 1 and expr_text(init[0]["e"]).strip() == "false"):
+        ctx.violation("C18.2/sleep-yields", key_of(sc.file, sc.qual, "initialized"), f"sleep_cycles creates the future with initialized = `{expr_text(init[0]['e']) if init else '?'}`: a sleep that starts initialised completes on its first poll without going through the scheduler, so the task runs ahead of others due at that cycle and a second event emitted in the same resumption is dropped", sc.where)
+    ctx.instance("C18.4/runner-and-sleep", "runner loop exits only on completion; sleeps start un-initialised", n, 2)
 
 
 def _clock_setters(rs: RustProgram) -> set[str]:
